@@ -221,6 +221,9 @@ KNOWN_SCENARIOS = [
      'fn rc() { try { throw 1; } catch e { return "catch"; } finally { print("fin"); } return "after"; }\nprint(rc());\n'
      'for i in 0..2 { try { throw i; } catch e { if e == 0 { continue; } break; } finally { print("loop fin " + String.from(i)); } }\nprint("end");',
      ["fin", "catch", "loop fin 0", "loop fin 1", "end"], "ok"),
+    ("F49-call-returning-through-finally-inside-a-finally-block",
+     'fn g() { try { return [9]; } finally { } }\nfn f() { try { return [1]; } finally { g(); } print("fell through"); }\nprint(f());',
+     ["[1]"], "ok"),
     ("F26-return-in-finally-after-throw", 'fn g() { try { throw 1; } finally { return 2; } }\nprint(g());\nfn h() { try { print("h"); } finally { print("hf"); } return 3; }\nprint(h());',
      ["2", "h", "hf", "3"], "ok"),
 ]
